@@ -200,3 +200,65 @@ def compact_index_permutation_contract(finding_known, transpose):
                     local_shapes={"done": lambda V: [V.p.n_patom, V.p.n_satom]},
                     requires=req, modifies=("fc",),
                     loops={0: LoopSpec(fill=True), 1: LoopSpec(inv_j), 2: LoopSpec(inv_ip, capture=capture)})
+
+
+# ---------------------------------------------------------------- compact layout: translational invariance
+def translational_compact_contract():
+    def S(V):
+        old, p2s = V.old.a.fc, V.old.a.p2s
+        return RecSum("rowsum_offdiag_c", [I, I, I], lambda a, k, l, j: z3.If(p2s[a] != j, old[a, j, k, l], z3.RealVal(0)))
+
+    def cells(V, upto):
+        n_p, n_s = V.p.n_patom, V.p.n_satom
+        fc, old, p2s = V.a.fc, V.old.a.fc, V.old.a.p2s
+        Sf = S(V)
+        return z3.ForAll([p_, q_, a_, b_], z3.Implies(_rng4(n_p, n_s), fc[p_, q_, a_, b_] == z3.If(
+            z3.And(q_ == p2s[p_], p_ < upto), -(Sf(p_, a_, b_, n_s) + Sf(p_, b_, a_, n_s)) / 2, old[p_, q_, a_, b_])))
+
+    def inv_i(V):
+        return [("range", z3.And(V.v.i_p >= 0, V.v.i_p <= V.p.n_patom)), ("cells", cells(V, V.v.i_p))]
+
+    def inv_j(V):
+        n_s, ip, j = V.p.n_satom, V.v.i_p, V.v.j
+        k, l = z3.simplify(V.v.k), z3.simplify(V.v.l)
+        Sf = S(V)
+        out = [("range", z3.And(ip >= 0, ip < V.p.n_patom, j >= 0, j <= n_s)), ("cells", cells(V, ip)),
+               ("partial", V.a.sums[k, l] == Sf(ip, k, l, j))]
+        kk, ll = k.as_long(), l.as_long()
+        for k2 in range(3):
+            for l2 in range(3):
+                if (k2, l2) < (kk, ll):
+                    out.append(("done[%d,%d]" % (k2, l2), V.a.sums[k2, l2] == Sf(ip, k2, l2, n_s)))
+        return out
+
+    def define_j(V):
+        return {"m": V.v.i_p * V.p.n_satom * 9 + V.v.k * 3 + V.v.l + 9 * V.v.j}
+
+    def unfold_j(V):
+        Sf = S(V)
+        out = []
+        for k2 in range(3):
+            for l2 in range(3):
+                out += [Sf.zero(V.v.i_p, k2, l2), Sf.unfold(V.v.i_p, k2, l2, V.v.j), Sf.unfold(V.v.i_p, k2, l2, V.v.j - 1)]
+        return out
+
+    def ens(V):
+        n_p, n_s = V.p.n_patom, V.p.n_satom
+        return [("result", cells(V, n_p))]
+
+    def gen(rnd):
+        import numpy as np
+        n_p, N = rnd.randint(1, 3), rnd.randint(1, 3)
+        n_s = n_p * N
+        return {"fc": np.array([rnd.uniform(-1, 1) for _ in range(n_p * n_s * 9)]).reshape(n_p, n_s, 3, 3),
+                "p2s": np.array([a * N for a in range(n_p)]), "n_satom": n_s, "n_patom": n_p}
+
+    def interp(h, ev, env):
+        from pvc.ceval import recsum_callable
+        Sf = S(h.Vpost)
+        return {Sf.key: recsum_callable(ev, Sf)}
+    return Contract(F, "set_translational_symmetry_compact_fc",
+                    shapes={"fc": lambda P: [P.n_patom, P.n_satom, 3, 3], "p2s": lambda P: [P.n_patom]},
+                    requires=lambda V: [V.p.n_patom >= 0, V.p.n_satom >= 0, _tab(V.a.p2s, V.p.n_patom, 0, V.p.n_satom)],
+                    ensures=ens, modifies=("fc",),
+                    loops={0: LoopSpec(inv_i), 3: LoopSpec(inv_j, unfold=unfold_j, define=define_j)}, gen=gen, interp=interp)
